@@ -24,19 +24,27 @@ def check_enabled(ctx, R="C19.enabled"):
         raise AnalysisError("shape not recognised: pickEnabledInvocable")
     pk = pick[0]
     agentp = fn.args.args[1].arg
-    # the enabled set: the dict handed to Options(...)
-    optc = [c for c in ast.walk(pk) if isinstance(c, ast.Call) and dotted(c.func) == "Options" and len(c.args) == 1 and isinstance(c.args[0], ast.Name)]
+    # the enabled set: the mapping handed to Options(...) -- a local filled by insertions / built in one expression, or the
+    # building expression itself
+    optc = [c for c in ast.walk(pk) if isinstance(c, ast.Call) and dotted(c.func) == "Options" and len(c.args) == 1]
     if len(optc) != 1:
         raise AnalysisError("shape not recognised: Options(<enabled set>) in pickEnabledInvocable")
-    en = optc[0].args[0].id
-    stores = [n for n in ast.walk(pk) if isinstance(n, ast.Assign) and isinstance(n.targets[0], ast.Subscript) and unparse(n.targets[0].value) == en]
-    # other ways of building the mapping: a dict comprehension, or dict(zip(keys, weights))
-    built = [n for n in walk_local(pk) if isinstance(n, ast.Assign) and unparse(n.targets[0]) == en and not (isinstance(n.value, ast.Dict) and not n.value.keys) and unparse(n.value) != "dict()"]
+    marg = optc[0].args[0]
+    if isinstance(marg, ast.Name):
+        en = marg.id
+        stores = [n for n in ast.walk(pk) if isinstance(n, ast.Assign) and isinstance(n.targets[0], ast.Subscript) and unparse(n.targets[0].value) == en]
+        built = [(n, n.value) for n in walk_local(pk) if isinstance(n, ast.Assign) and unparse(n.targets[0]) == en and not (isinstance(n.value, ast.Dict) and not n.value.keys) and unparse(n.value) != "dict()"]
+    else:
+        en = unparse(marg)
+        stores = []
+        built = [(lib.statement_of(marg), marg)]
+    key_lists = set()  # locals holding the eligible items when the mapping is built from parallel sequences
     n_alt = 0
-    for b in built:
-        v = b.value
+    for b, v in built:
         if isinstance(v, ast.Call) and dotted(v.func) == "dict" and len(v.args) == 1 and isinstance(v.args[0], ast.Call) and dotted(v.args[0].func) == "zip" and len(v.args[0].args) == 2:
             n_alt += 1
+            if isinstance(v.args[0].args[0], ast.Name):
+                key_lists.add(v.args[0].args[0].id)
             ks, kv, kt = lib.iter_source(pk, v.args[0].args[0])
             ws, wv, wt = lib.iter_source(pk, v.args[0].args[1])
             norm = lambda var, tests: sorted(unparse(lib._Rename({var: "$"}).visit(ast.parse(unparse(t), mode="eval").body)) if var else unparse(t) for t in tests)
@@ -85,8 +93,35 @@ def check_enabled(ctx, R="C19.enabled"):
                 f"pickEnabledInvocable: `{unparse(s)}` (guards {guards}) does not insert exactly the items whose preconditions hold with the weight the "
                 f"program gave them: the choice probabilities differ from weight / sum of eligible weights",
             )
+    # eligibility is evaluated at every pick: each `True` answer of _isEnabledForAgent is given only after this call has run the
+    # guards (a cached earlier answer keeps an item that is no longer eligible among the candidates)
+    ie = model.func(IV, "Invocable._isEnabledForAgent")
+    if ie.decorator_list:
+        ctx.finding(R, ie, "_isEnabledForAgent decorated", f"_isEnabledForAgent is wrapped by `{unparse(ie.decorator_list[0])}`: eligibility must be evaluated anew at every pick")
+    n_true = 0
+    for asm, env, ex in lib.enumerate_paths(ie):
+        if not (isinstance(ex, ast.Return) and ex.value is not None):
+            continue
+        v = ex.value
+        if isinstance(v, ast.Constant) and v.value is False:
+            continue
+        n_true += 1
+        tr = env.get(lib.TRACE, ())
+        ran = any(isinstance(c, ast.Call) and unparse(c.func) in ("self._checkAllPreconditions", "self.checkPreconditions") for st in tr if not isinstance(st, ast.Try) for c in ast.walk(st))
+        if ran and isinstance(v, ast.Constant) and v.value is True:
+            ctx.ok(R, ex, "`return True` only after the guards were checked in this very call")
+        else:
+            ctx.finding(
+                R,
+                ex,
+                f"_isEnabledForAgent answers {norm_text(v, 30)} without checking",
+                f"_isEnabledForAgent returns `{unparse(v)}` on the path {dict(asm) or '{}'} without having called _checkAllPreconditions in this call: an item that was eligible at an earlier "
+                f"pick but no longer is stays a candidate of `do choose` / `do shuffle`, and the simulation is rejected (or the item runs) although its precondition is false",
+            )
+    ctx.floor(R, n_true, 1, "positive answers of _isEnabledForAgent")
     t = unparse(pk)
-    empt = [n for n in ast.walk(pk) if isinstance(n, ast.If) and unparse(n.test) == f"not {en}" and any(isinstance(x, ast.Raise) and "RejectSimulationException" in unparse(x) for x in n.body)]
+    empties = {f"not {x}" for x in {en} | key_lists} | {lib.ctext_of(f"len({x}) == 0") for x in {en} | key_lists}
+    empt = [n for n in ast.walk(pk) if isinstance(n, ast.If) and (unparse(n.test) in empties or lib.ctext(n.test) in empties) and any(isinstance(x, ast.Raise) and "RejectSimulationException" in unparse(x) for x in n.body)]
     if empt:
         ctx.ok(R, empt[0], "no eligible item => the simulation is rejected")
     else:
@@ -101,7 +136,8 @@ def check_enabled(ctx, R="C19.enabled"):
         ctx.ok(R, single[0], "a single eligible item is taken deterministically")
     rets = [r for r in lib.returns_of(pk) if r.value is not None]
     picked = set(lib.locals_assigned(pk, lambda v: isinstance(v, ast.Call) and dotted(v.func) == "Options")) | {f"Options({en})"}
-    if len(rets) == 1 and unparse(rets[0].value) in picked:
+    singles = {f"list({x})[0]" for x in {en} | key_lists} | {f"{x}[0]" for x in key_lists} | {f"next(iter({x}))" for x in {en} | key_lists}
+    if rets and any(unparse(r.value) in picked for r in rets) and all(unparse(r.value) in picked | singles for r in rets):
         ctx.ok(R, rets[0], "the picked item is returned")
     else:
         ctx.finding(R, pk, "pick return", "pickEnabledInvocable does not return the picked item")
@@ -256,7 +292,53 @@ def check_runtime_sampling(ctx, R="C19.runtime"):
         ctx.finding(R, where, "unrecorded return", "a return in the simulation branch of Distribution.__new__ precedes recordSampledValue: that draw is missing from the replay")
 
 
+
+REWIND_CALLS = {"random.setstate", "random.seed", "numpy.random.set_state", "numpy.random.seed"}
+RUNTIME_PREFIXES = ("scenic.core.dynamics", "scenic.core.simulators")
+
+
+def check_rewind(ctx, R="C19.rewind"):
+    ctx.rule(
+        R,
+        "run-time draws are never rewound: the code that executes while a simulation runs (scenic.core.dynamics.*, "
+        "scenic.core.simulators) and the sampling path of distributions never restore or reseed the global generators "
+        "(random.setstate / seed, numpy.random.set_state / seed); a restore after some draws makes the next draw repeat them, so "
+        "it is not independent of the earlier ones (the one legitimate bracket, around requirement checking in Scenario.generate, is "
+        "compile-time code and serves as positive control of the matcher)",
+    )
+    model = ctx.model
+    n_ctrl = 0
+    bad = []
+    for mod in model.modules.values():
+        runtime = mod.name.startswith(RUNTIME_PREFIXES) or mod.name == DI
+        control = mod.name == "scenic.core.scenarios"
+        if not (runtime or control):
+            continue
+        for c in ast.walk(mod.tree):
+            if not isinstance(c, ast.Call):
+                continue
+            r = model.resolve_expr(mod, c.func)
+            if not (isinstance(r, tuple) and r[0] == "ext" and r[1] in REWIND_CALLS):
+                continue
+            if control:
+                n_ctrl += 1
+            else:
+                bad.append((mod, c, r[1]))
+    for mod, c, name in bad:
+        ctx.finding(
+            R,
+            c,
+            f"{lib.qualname_of(c)} calls {name}",
+            f"{lib.qualname_of(c)} ({mod.path}) calls `{norm_text(c, 50)}` while a simulation runs: after the generator state is put back, the next run-time draw (the pick of "
+            f"`do choose` / `do shuffle`, the first distribution created in a behaviour) repeats the values drawn since the state was saved instead of being independent of them",
+        )
+    if not bad:
+        ctx.ok(R, model.module(DI).tree.body[0], "no restore / reseed of the global generators in run-time code")
+    ctx.floor(R, n_ctrl, 2, "setstate / set_state calls found in Scenario.generate (positive control)")
+
+
 def check(ctx):
+    check_rewind(ctx)
     check_enabled(ctx)
     check_schedule(ctx)
     check_runtime_sampling(ctx)
